@@ -178,7 +178,7 @@ class Bench:
         if t is not None and not t.done():
             coro.close()
             return
-        if t is not None and STATE[self.conn.connection_state] == ("init" if name == "start" else "sockOpen"):
+        if t is not None and name == "finish" and STATE[self.conn.connection_state] == "sockOpen":
             coro.close()   # (finish refused earlier, now acceptable: keep one task per phase, skip)
             return
         nt = tasks._PyTask(coro, loop=self.loop, name=name if t is None else name + "#again", eager_start=True)
